@@ -392,7 +392,9 @@ func runC07(c *Ctx) {
 		var bad []string
 		n := 0
 		for _, f := range c.Funcs {
-			if pkgPathOf(f) != modPkg+pParser || f.Blocks == nil {
+			// (the parser's functions, and the key type's own methods the parser calls on the signed key: Validate checks
+			// the key, it does not tidy it)
+			if (pkgPathOf(f) != modPkg+pParser && pkgPathOf(f) != modPkg+"jws") || f.Blocks == nil {
 				continue
 			}
 			n++
@@ -616,6 +618,13 @@ func (c *Ctx) configSinks() {
 				}
 				if idx < 0 {
 					continue
+				}
+				// (a module helper written like slices.ContainsFunc, asked with an equality predicate: a membership test)
+				if g != nil && idx == 0 && containsFuncLike(g) {
+					if fn, _ := equalityClosureSearch(x); fn != nil {
+						add(fld, "element == value")
+						continue
+					}
 				}
 				if g != nil && inModule(g) && g.Blocks != nil && idx < len(g.Params) && !strings.Contains(pkgPathOf(g), "/internal/log") && !strings.HasSuffix(pkgPathOf(g), "/pkg/log") {
 					follow(fld, g.Params[idx], d+1, seen)
